@@ -1,4 +1,4 @@
-import SkoolVerif.Proofs.CmioVsSimStep
+import SkoolVerif.Proofs.CmioVsSimRun
 /-!
 C06 — all four simulator implementations execute every program identically.
 
@@ -8,7 +8,8 @@ C06 — all four simulator implementations execute every program identically.
 * `CMIOSimulator` dispatches to the same closure as `Simulator` for every opcode sequence.
 * Python pair: one step of the contended simulator leaves registers, flags, memory, PC, IFF, IM,
   HALT and the port-access sequence exactly as one step of the plain simulator does (T and MEMPTR
-  aside) — for every closure, any arguments, any state; see C19 for the exclusions.
+  aside, and bits 5 and 3 of F after BIT n,(HL), which the contended simulator derives from MEMPTR) —
+  for every closure, any arguments, any state, under the frame layout `CfgOk` both machines have.
 * The C handler bodies and run loops are not translated: their tie is the per-slot and
   program-level differential execution in `harness/props/c06.py`.
 -/
@@ -29,17 +30,37 @@ theorem cmio_runs_same_closure {μ : Type} [MemLike μ] (s : St μ) :
     Cmio.leafOf s = toCmio (Sim.leafOf s) := leafOf_map s
 
 /-- Python pair, one instruction from any state: identical registers (incl. R), flags, memory, PC,
-IFF, IM, HALT, pending port readings, port-write and port-read sequences.  `_partial`: excludes the
-three closures listed in `CmioVsSim.pending` (BIT n,(HL): flag bits 5/3 differ by design; HALT and
-LD A,I/R: they test the interrupt window after adding the delay). -/
-theorem python_pair_agree_partial {μ : Type} [MemLike μ] (cfg : Cfg) (s : St μ)
-    (hp : pending (Sim.leafOf s) = false) (hr : RegsOk s.reg) :
-    SameButClock (Sim.step cfg s) (Cmio.step cfg s) := same_step_partial cfg s hp hr
+IFF, IM, HALT, pending port readings, port-write and port-read sequences — every closure but
+BIT n,(HL) (`isBitHl`; see `python_pair_agree_modF53`).  `CfgOk cfg`: the frame layout of both
+machine configurations (`C19.frame_layout_ok`), needed by HALT and LD A,I/R which test the interrupt
+window after the contention delay has been added. -/
+theorem python_pair_agree {μ : Type} [MemLike μ] (cfg : Cfg) (s : St μ)
+    (hb : isBitHl (Sim.leafOf s) = false) (hr : RegsOk s.reg) (hcfg : CfgOk cfg) :
+    SameButClock (Sim.step cfg s) (Cmio.step cfg s) := same_step cfg s hb hr hcfg
 
-/-- the excluded set is exactly three closures -/
-theorem pending_is_three (i : Sim.Instr) :
-    pending i = true ↔ (∃ b t, i = .bit_hl b t) ∨ i = .halt ∨ (∃ r, i = .ld_a_ir r) := by
-  cases i <;> simp [pending]
+/-- every closure, BIT n,(HL) included: identical but for T, MEMPTR and bits 5 and 3 of F (which the
+contended simulator takes from MEMPTR: they differ by design) -/
+theorem python_pair_agree_modF53 {μ : Type} [MemLike μ] (cfg : Cfg) (s : St μ)
+    (hr : RegsOk s.reg) (hcfg : CfgOk cfg) :
+    SameModF53 (Sim.step cfg s) (Cmio.step cfg s) := sameModF53_step cfg s hr hcfg
+
+/-- Python pair, `m ≤ n` instructions from the same state (no interrupt accepted in between): still
+identical but for T and MEMPTR, as long as the plain run keeps its registers in range and executes none
+of HALT, LD A,I/R (their effect depends on T, which differs) and BIT n,(HL) (`clockFree_false_iff`). -/
+theorem python_pair_agree_run {μ : Type} [MemLike μ] (cfg : Cfg) (hcfg : CfgOk cfg) (n : Nat) (s : St μ)
+    (hall : ∀ k, k < n → RegsOk (Sim.runN cfg k s).reg ∧ clockFree (Sim.leafOf (Sim.runN cfg k s)) = true)
+    (m : Nat) (hm : m ≤ n) :
+    SameButClock (Sim.runN cfg m s) (Cmio.runN cfg m s) := same_runN cfg hcfg n s hall m hm
+
+theorem clockFree_false_iff (i : Sim.Instr) :
+    clockFree i = false ↔ (∃ b t, i = .bit_hl b t) ∨ i = .halt ∨ (∃ r, i = .ld_a_ir r) := clockFree_iff i
+
+/-- the closure with the weaker statement is exactly BIT n,(HL) -/
+theorem isBitHl_iff (i : Sim.Instr) : isBitHl i = true ↔ ∃ b t, i = .bit_hl b t := by
+  cases i <;> simp [isBitHl]
+
+/-- both machine configurations have the frame layout -/
+theorem frame_layout_ok : CfgOk (Contend.cfgFor false) ∧ CfgOk (Contend.cfgFor true) := ⟨cfgOk_48k, cfgOk_128k⟩
 
 -- non-vacuity: a concrete slot where the C and Python rows are (the same) non-trivial closure call
 example : CSim.tbl_MAIN[0x09]! = .add_rr .R1 11 1 6 7 2 3 := by decide +kernel
